@@ -172,4 +172,26 @@ theorem for_else_when_empty (W : World) (f : Nat) (ctx : Ctx) (st st1 : St) (tag
 theorem onceGate_plain (st : St) (a : List Attr) (h : hasAttr a (S "v-once") = false) : onceGate st a = some st := by
   simp [onceGate, h]
 
+/-- A PATH ON THE LOOP VARIABLE IS A PATH ON THE ITEM: when the innermost scope binds `n` (as a loop instance binds its variable), a dotted
+    or bracketed path that starts with `n` is walked from THAT value - the answer does not mention the scopes below or the root data at all.
+    In particular a step the item does not have is absent, although a root field of the same name as the loop variable may have it. -/
+theorem path_on_loop_variable_uses_the_item (cfg : ReflectCfg) (s : Stack) (sc : Scope) (n : Str) (v : Val) (rest : List Str) (expr : Str)
+    (hdot : containsAny expr ['.', '['] = true) (hsplit : splitPath expr = n :: rest)
+    (hb : Scope.get sc n = some v) (hv : v ≠ .nil) :
+    (s.push sc).resolve cfg expr = walkPath cfg v rest := by
+  have hl : Stack.lookup cfg (s.push sc) n = .ok (some v) := by
+    simp [Stack.lookup, Stack.push, Stack.lookupScopes, hb]
+  unfold Stack.resolve
+  cases v <;> first
+    | exact absurd rfl hv
+    | simp only [hdot, Bool.not_true, Bool.false_eq_true, ↓reduceIte, hsplit, hl]
+
+/-- ... so two stacks that differ only BELOW the innermost scope - another root, other outer variables - resolve it alike -/
+theorem path_on_loop_variable_independent_of_outer (cfg : ReflectCfg) (s s' : Stack) (sc : Scope) (n : Str) (v : Val) (rest : List Str) (expr : Str)
+    (hdot : containsAny expr ['.', '['] = true) (hsplit : splitPath expr = n :: rest)
+    (hb : Scope.get sc n = some v) (hv : v ≠ .nil) :
+    (s.push sc).resolve cfg expr = (s'.push sc).resolve cfg expr := by
+  rw [path_on_loop_variable_uses_the_item cfg s sc n v rest expr hdot hsplit hb hv,
+      path_on_loop_variable_uses_the_item cfg s' sc n v rest expr hdot hsplit hb hv]
+
 end Vuego.Props.C04
